@@ -227,6 +227,18 @@ class Engine(ExprMixin, StmtMixin):
                     return "lib", h, c
         return None
 
+    def class_assigns(self, clsid, attr):
+        """does any method of the class (or a repo base) store self.<attr>?"""
+        for c in self.mro(clsid):
+            if "::" not in c:
+                continue
+            m, cd = self.class_def(c)
+            for n in ast.walk(cd):
+                if isinstance(n, ast.Attribute) and n.attr == attr and isinstance(n.ctx, ast.Store) \
+                        and isinstance(n.value, ast.Name) and n.value.id == "self":
+                    return True
+        return False
+
     def is_subclass(self, clsid, other):
         return other in self.mro(clsid)
 
@@ -327,13 +339,15 @@ class Engine(ExprMixin, StmtMixin):
             name = f"in:{self.cur_func.split('::')[-1]}:{name}"
         self.obligations.append(Obligation(f"{prefix}:{name}", kind, st.pc, goal, where, note, func=self.top_func))
 
-    def safety(self, st, name, cond, node, note, kind="safety"):
+    def safety(self, st, name, cond, node, note, kind="safety", assume=True):
         if self.spec_depth:
             return
         c = z3.simplify(cond) if not isinstance(cond, bool) else z3.BoolVal(cond)
         if z3.is_true(c):
             return
         self.oblige(st, name, kind, c, node, note)
+        if not assume:
+            return
         st.assume(c)
 
     # ------------------------------------------------------------------ inlining / contracts
@@ -680,6 +694,19 @@ class Engine(ExprMixin, StmtMixin):
                 for i, e in enumerate(c.get("ensures", [])):
                     s.assume(self.prove(s, f"ensures{i}", e, {"result": rv}, fi.node))
             elif oc[0] == RAISE:
+                if c.get("excuse_rejected") and oc[1] in c.get("raises", ()):
+                    # nothing is owed on a path that ends in an explicit rejection: obligations emitted earlier on
+                    # exactly this path (their pc is a prefix of the rejected path's pc) only have to hold when the
+                    # path is NOT continued into the rejection
+                    ids = [p.get_id() for p in s.pc]
+                    for ob in self.obligations[n_before:]:
+                        k = len(ob.pc)
+                        if ob.kind in ("safety", "vc") and k < len(ids) and [p.get_id() for p in ob.pc] == ids[:k]:
+                            rest = s.pc[k:]
+                            if rest and rest[0].eq(ob.goal):        # the obligation's own goal, assumed after it was emitted
+                                rest = rest[1:]
+                            if rest:
+                                ob.pc = ob.pc + [z3.Not(z3.And(rest))]
                 allowed = c.get("raises", ("ValueError", "NotImplementedError", "RuntimeError", "AssertionError",
                                            "IndexError", "KeyError", "TypeError"))
                 if c.get("no_raise") or oc[1] not in allowed:
